@@ -5,7 +5,7 @@
 
 use crate::{error::panic_divide_by_0, rbig::RBig, repr::Repr};
 use core::{cmp::Ordering, mem};
-use dashu_base::{AbsOrd, Approximation, DivRem, UnsignedAbs};
+use dashu_base::{AbsOrd, Approximation, DivRem, FloatEncoding, Signed, UnsignedAbs};
 use dashu_int::{IBig, Sign, UBig};
 
 impl Repr {
@@ -76,32 +76,42 @@ impl Repr {
 
 /// Implementation of simplest_from_f32, simplest_from_f64
 macro_rules! impl_simplest_from_float {
-    ($f:ident) => {{
+    ($f:ident, $t:ty) => {{
         if $f.is_infinite() || $f.is_nan() {
             return None;
         } else if $f == 0. {
             return Some(Self::ZERO);
         }
 
-        // get the range (f - ulp/2, f + ulp/2)
-        // if f is negative, then range will be flipped by simplest_in()
-        let mut est = Repr::try_from($f).unwrap();
-        est.numerator <<= 1;
-        est.denominator <<= 1;
-        let left = Self(
-            Repr {
-                numerator: &est.numerator + IBig::ONE,
-                denominator: est.denominator.clone(),
-            }
-            .reduce(),
-        );
-        let right = Self(
-            Repr {
-                numerator: est.numerator - IBig::ONE,
-                denominator: est.denominator,
-            }
-            .reduce(),
-        );
+        // get the rounding interval of f = man * 2^exp in units of 2^(exp - 2): the values in
+        // (4man - 2, 4man + 2) are within half an ulp, except that the gap between a power of
+        // two and the float below it is only half as wide (unless that float is subnormal).
+        // If f is negative, the range will be flipped by simplest_in()
+        let (man, exp) = $f.decode().unwrap();
+        let mag = man.unsigned_abs();
+        let min_exp = (<$t>::MIN_EXP - <$t>::MANTISSA_DIGITS as i32) as i16;
+        let below = if mag == 1 << (<$t>::MANTISSA_DIGITS - 1) && exp > min_exp {
+            1
+        } else {
+            2
+        };
+        let center = IBig::from(mag) << 2;
+        let (shift, den_shift) = if exp >= 2 {
+            ((exp - 2) as usize, 0)
+        } else {
+            (0, (2 - exp) as usize)
+        };
+        let bound = |num: IBig| {
+            Self(
+                Repr {
+                    numerator: (num << shift) * man.sign(),
+                    denominator: UBig::ONE << den_shift,
+                }
+                .reduce(),
+            )
+        };
+        let left = bound(&center - IBig::from(below));
+        let right = bound(center + IBig::from(2));
 
         // find the simplest float in the range
         let mut simplest = Self::simplest_in(left.clone(), right.clone());
@@ -167,7 +177,7 @@ impl RBig {
     /// );
     /// ```
     pub fn simplest_from_f32(f: f32) -> Option<Self> {
-        impl_simplest_from_float!(f)
+        impl_simplest_from_float!(f, f32)
     }
 
     /// Find the simplest rational number in the rounding interval of the [f64] number.
@@ -198,7 +208,7 @@ impl RBig {
     ///     RBig::from_parts(22.into(), 7u8.into())
     /// );
     pub fn simplest_from_f64(f: f64) -> Option<Self> {
-        impl_simplest_from_float!(f)
+        impl_simplest_from_float!(f, f64)
     }
 
     /// Find the simplest rational number in the open interval `(lower, upper)`.
